@@ -20,11 +20,85 @@ from fractions import Fraction as F
 from .. import common as cm
 
 PROP = 'C14'
-THEOREMS = []
-PARTIAL = {}
-RULE = ''
-ASSUMPTIONS = []
-TRUSTED = []
+THEOREMS = [
+    # free_surface_basis: starting vectors, enumeration, the two searches
+    'C14.initVectors_eq_C16', 'C14.init_cross_parallel', 'C14.mem_genVectors', 'C14.basis_value_error_iff',
+    'C14.freeSurfaceBasis_eq', 'C14.search_result_satisfies_filter',
+    # integer / zone law / out of plane / right-handed (all three orderings) / normal
+    'C14.basis_integer', 'C14.reduceGcd_smul', 'C14.reduceGcd_coprime',
+    'C14.normal_component', 'C14.inPlane_iff_zone', 'C14.basis_in_plane', 'C14.basis_in_plane_p',
+    'C14.basis_out_of_plane', 'C14.basis_right_handed_cart', 'C14.basis_right_handed', 'C14.orderRows_rows',
+    'C14.normal_matches_miller', 'C14.normal_is_reciprocal', 'C14.c2p_det',
+    # what the searches optimise
+    'C14.basis_a_shortest', 'C14.basis_c_closest', 'C14.basis_b_shortest',
+    # Miller-Bravais input / output
+    'C14.plane4to3_spec', 'C14.vector3to4_spec',
+    # FreeSurface: termination shifts
+    'C14.withReplica_spec', 'C14.shifts_perm', 'C14.shifts_sorted', 'C14.shifts_length', 'C14.shift_between_planes',
+    'C14.shifts_in_cell',
+    # FreeSurface.surface: same crystal, multiplier, pbc, vacuum
+    'C14.surfacePos_spec', 'C14.surface_same_crystal', 'C14.cutMult_none', 'C14.cutMult_some', 'C14.surface_pbc',
+    'C14.vacuum_symmetric',
+    # System.wrap on one atom (shared with C05), StackingFault.fault
+    'C14.wrapPos_eq_C05', 'C14.wrapPos_reconstruct', 'C14.wrapPos_inside', 'C14.wrapPos_add_lattice',
+    'C14.isAbove_iff', 'C14.fault_below_fixed', 'C14.fault_above_shifted', 'C14.faultShift_cut',
+    'C14.fault_box_vector_restores', 'C14.fault_lattice_vector_restores', 'C14.push_restores_minimum_r',
+    'C14.isFloor_ratFloor',
+]
+PARTIAL = {
+    'isclose_as_exact_zero': 'np.isclose(x, 0) / np.isclose(mag, b_mag) / the arccos-based angle comparisons are modelled '
+                             'as exact tests (x = 0, equal squared lengths, cross-multiplied squared cosines); on inputs '
+                             'where a float tie or near-tie decides the coded choice the correspondence does not '
+                             'compare the vectors literally but requires the relational model `Rel.validBasis` to '
+                             'accept the coded answer (same filters, optimal up to 1e-9)',
+    'searches_succeed': 'no theorem says that the two searches find vectors (AssertionError is a documented outcome: '
+                        'it does happen for an explicit small maxindex); all theorems are about successful runs, '
+                        'refusals are compared by the correspondence',
+    'fault_lattice_vector_restores': 'the general statement takes the invariance of the upper half-crystal under the '
+                                     'translation (modulo the periodic cell) as a hypothesis; it is derived inside the '
+                                     'model only for integer combinations of the periodic cell vectors of the system '
+                                     '(`fault_box_vector_restores`); for a lattice vector of the rotated cell inside a '
+                                     'larger supercell the invariance is checked on the real systems by the search '
+                                     'oracle',
+    'shift_between_planes': 'stated on the list of layer coordinates (strictly ascending, spanning at most one period): '
+                            'that `np.unique` of the rounded coordinates yields such a list is part of the model '
+                            '(`layerCoords`, compared with the implementation) but not a theorem',
+    'rotate_and_normalize': 'the rotated cell itself (System.rotate + normalize) is C04/C05 territory: here it enters as the '
+                            'given cell `rbox` with its atoms; the search oracle checks on the real objects that it is a '
+                            'proper rotation of uvws.vects holding det(uvws) copies of every unit-cell atom',
+    'minimum_r': 'only the final algebra of the push is proved (the pushed separation has length minimum_r); the '
+                 'selection of the closest pair by System.dvect is not modelled',
+}
+RULE = ('free_surface_basis: every plane |h|,|k|,|l| <= N (N=4 quick, 8 thorough; zeros and negatives included) against '
+        'cells of all seven crystal families in two regimes — small dyadic cells on which every dot/cross product of the '
+        'routine is exact in double precision (uvws compared exactly unless the model flags a tie) and family-constructor '
+        'cells with generic parameters (tolerance 1e-9 on the normal; uvws exactly unless flagged) — x the three '
+        'cutboxvectors x settings p/f/i/a/b/c/t1/t2 on centred primitive cells, Miller-Bravais input and output on '
+        'hexagonal cells, explicit small maxindex (searches that fail), all-zero / malformed planes (refusals must '
+        'coincide by class). FreeSurface/StackingFault: fcc, bcc, diamond, L1_2, B2, bct, hcp, primitive fcc/bcc with '
+        'settings f/i, a two-atom orthorhombic cell x random low-index planes x cuts: refusal for an incompatible cut '
+        'vector, uvws, shifts, surface() multiplier/pbc/vacuum box/positions (supersize+shift+wrap in the model), '
+        'fault() mask (exact) and positions. distinct = distinct (cell, plane, cut, maxindex, setting) or system '
+        'parameters; non-trivial = the call did not refuse. Search: the clauses on the real objects with an exact '
+        'Fraction oracle (zone law, determinant, reciprocal direction, brute-force minimality in the exact regime) and '
+        'a site census of the built systems against the unit cell.')
+ASSUMPTIONS = [
+    'np.isclose(x, 0.0) is x = 0, np.isclose(mag, b_mag) is equality of lengths, and the comparisons of norms / '
+    'arccos angles are the exact comparisons of squared lengths / cross-multiplied squared cosines (order-equivalent '
+    'for exact reals); inputs on which a float tie decides are recognised by the model and handled relationally',
+    'numpy.floor followed by the integer cast is the mathematical floor (parameter fl with fl s <= s < fl s + 1; the '
+    'driver uses Rat.floor, `isFloor_ratFloor`)',
+    'the square root of the minimum_r push is a parameter sq with sq*sq = radicand',
+    'the cell is non-singular (det vects != 0); the statements about the side of the normal and det(uvws) > 0 assume a '
+    'right-handed cell (det > 0), the Cartesian form `basis_right_handed_cart` does not',
+    'Box.ishexagonal is evaluated on the Gram matrix with a relative tolerance 1e-7 (generated boxes are hexagonal to '
+    '1e-12 or far from it)',
+    'np.unique(round(x, numdec)) keeps the first atom of each rounded layer coordinate, ascending (model `layerCoords`; '
+    'cases within 1e-3 of a rounding boundary or with layer gaps near tol are not compared)',
+]
+TRUSTED = ['numpy inside the implementation run', 'fractions.Fraction / numpy site census oracles in search()',
+           "C16's theorems idx_cross_parallel / normal_is_reciprocal (imported, audited there), C05_Lemmas' "
+           'atom_reconstruct, C04.replicaPos_eq / supersize_length (imported)']
 
 CUTS = ('a', 'b', 'c')
 SETTINGS = ('p', 'f', 'i', 'a', 'b', 'c', 't1', 't2')
@@ -485,14 +559,6 @@ def _correspond_fsb(ctx):
     ctx.extra['fsb_refusals'] = nref
 
 
-def correspond(ctx):
-    try:
-        _correspond_tables(ctx)
-        _correspond_fsb(ctx)
-    finally:
-        _close_pool()
-
-
 def _correspond_tables(ctx):
     """centring matrices of the model vs miller.vector_conventional_to_primitive / _primitive_to_conventional."""
     import numpy as np
@@ -523,14 +589,6 @@ def _correspond_tables(ctx):
             ctx.disagree('table:c2p', f'unknown setting {bad!r}: implementation {impl}, model {out}', {'op': 'c2p'})
 
 
-def search(ctx, broken):
-    pass
-
-
-def replay(ctx, payload):
-    pass
-
-
 # ----------------------------------------------------------------------------------------
 # crystals (literal fractional coordinates; am.load('prototype') needs the network)
 # ----------------------------------------------------------------------------------------
@@ -549,11 +607,15 @@ DIA = FCC + [[.25, .25, .25], [.75, .75, .25], [.75, .25, .75], [.25, .75, .75]]
 HCP = [[0, 0, 0], [1 / 3, 2 / 3, .5]]
 
 
-def crystals(rng, exact):
-    """(name, ucell, conventional_setting) — small cells of fcc/bcc/diamond/hcp/L1_2/B2/bct, centred primitives."""
-    import atomman as am
+def crystal_params(rng, exact):
     a = rng.choice([2.0, 4.0, 3.5]) if exact else rng.uniform(2.8, 4.2)
     c = rng.choice([3.0, 5.0, 6.5]) if exact else a * rng.uniform(1.5, 1.7)
+    return a, c
+
+
+def crystal_list(a, c, exact):
+    """(name, ucell, conventional_setting) — small cells of fcc/bcc/diamond/hcp/L1_2/B2/bct, centred primitives."""
+    import atomman as am
     out = [
         ('fcc', _system(am.Box.cubic(a), FCC, symbols=['Al']), 'p'),
         ('bcc', _system(am.Box.cubic(a), BCC, symbols=['Fe']), 'p'),
@@ -570,6 +632,11 @@ def crystals(rng, exact):
                            atype=[1, 2], symbols=['A', 'B']), 'p'),
     ]
     return out
+
+
+def crystals(rng, exact):
+    a, c = crystal_params(rng, exact)
+    return crystal_list(a, c, exact)
 
 
 def _numdec(tol):
@@ -798,6 +865,33 @@ def _correspond_surface(ctx, sf, info, ci, cut, W):
     want_n = sf.rcell.natoms * mults[0] * mults[1] * mults[2]
     if system.natoms != want_n:
         ctx.disagree('surface:natoms', f'surface({kw}) has {system.natoms} atoms, model {want_n}', sinfo)
+        return
+    # positions: supersize (C04's model) + shift + wrap, atom by atom (same replica-major order)
+    lohi = []
+    for i in range(3):
+        s_ = mult if i == ci else sizemults[i]
+        lo, hi = (s_ if isinstance(s_, tuple) else ((0, s_) if s_ > 0 else (s_, 0)))
+        lohi += [lo, hi]
+    out = ctx.driver.ask('surf %s %s %s %s %s' % (' '.join(map(str, lohi)), cm.frs(np.asarray(sf.shift, dtype=float)),
+                                                cm.frs(rbox.vects), cm.frs(rbox.origin), cm.frs(sf.rcell.atoms.pos)))
+    if out.startswith('err'):
+        ctx.disagree('surface:driver', f'model refused surf: {out}', sinfo)
+        return
+    b_s, p_s, _ = out.split(';')
+    sb = np.array([float(x) for x in cm.unfrs(b_s)])
+    svects, sorigin = sb[:9].reshape(3, 3), sb[9:]
+    M = np.array([float(x) for x in cm.unfrs(p_s)]).reshape(-1, 3)
+    P = np.asarray(system.atoms.pos, dtype=float)
+    inv = np.linalg.inv(svects)
+    drel = (P - M) @ inv
+    srel = (M - sorigin) @ inv
+    nint = np.rint(drel)
+    nearface = np.minimum(srel - np.floor(srel), np.ceil(srel) - srel) < 1e-9
+    bad = (np.abs(drel - nint) > 1e-9) | ((nint != 0) & ~nearface)
+    if bad.any():
+        i = int(np.argmax(bad.any(axis=1)))
+        ctx.disagree('surface:positions', f'surface({kw}) atom {i} at {P[i].tolist()}, model {M[i].tolist()} '
+                     f'(difference {drel[i].tolist()} cell vectors)', dict(sinfo, atom=i))
 
 
 def _correspond_fault(ctx, sf, info, ci, cut, exact):
@@ -876,7 +970,7 @@ def _correspond_fault(ctx, sf, info, ci, cut, exact):
     return done
 
 
-def correspond(ctx):  # noqa: F811  (final definition)
+def correspond(ctx):
     try:
         _correspond_tables(ctx)
         _correspond_fsb(ctx)
@@ -884,3 +978,474 @@ def correspond(ctx):  # noqa: F811  (final definition)
         _correspond_fs(ctx, False)
     finally:
         _close_pool()
+
+
+# ----------------------------------------------------------------------------------------
+# search: the clauses of the property on the REAL code, with an independent exact oracle
+# ----------------------------------------------------------------------------------------
+def _adj_int(L):
+    """adjugate of an integer 3x3 (rows): L . adj(L) = det(L) . 1"""
+    c = [_cross(L[1], L[2]), _cross(L[2], L[0]), _cross(L[0], L[1])]
+    return [[c[j][i] for j in range(3)] for i in range(3)]
+
+
+def _vm(v, M):
+    return [sum(v[i] * M[i][j] for i in range(3)) for j in range(3)]
+
+
+def _hex_like(vects):
+    import numpy as np
+    v = np.asarray(vects, dtype=float)
+    a, b, c = (np.linalg.norm(v[i]) for i in range(3))
+    cos = lambda x, y: float(np.dot(x, y) / (np.linalg.norm(x) * np.linalg.norm(y)))
+    return abs(a - b) < 1e-9 * a and abs(cos(v[0], v[1]) + 0.5) < 1e-9 and abs(cos(v[0], v[2])) < 1e-9 \
+        and abs(cos(v[1], v[2])) < 1e-9
+
+
+def o_fsb(ctx, job, exact, impl=None, report=True):
+    """clauses of free_surface_basis on one input: integer, right-handed, zone law for the two in-plane rows,
+    third row out of plane on the normal's side, normal = reciprocal-lattice direction; in the exact regime also
+    the minimality claims of the docstring (shortest in-plane vector, closest to the normal, shortest second
+    in-plane vector) inside the index cube.  Returns the list of failed clause names."""
+    vects, hkl, cut, n, setting, rh = job
+    if impl is None:
+        impl = _impl_fsb(job)
+    rep = {'op': 'o_fsb', 'job': [vects, list(hkl), cut, n, setting, rh], 'exact': exact}
+    failed = []
+
+    def bad(clause, what):
+        failed.append(clause)
+        if report:
+            ctx.violate('fsb:' + clause, f'free_surface_basis({list(hkl)}, cutboxvector={cut!r}, maxindex={n}, '
+                        f'conventional_setting={setting!r}) on box {vects}: {what}', rep)
+    hkl3 = list(hkl) if len(hkl) == 3 else [hkl[0], hkl[1], hkl[3]]
+    hexbox = _hex_like(vects)
+    if impl[0] == 'err':
+        want_value = (all(x == 0 for x in hkl3) or (len(hkl) == 4 and (not hexbox or hkl[0] + hkl[1] + hkl[2] != 0))
+                      or (bool(rh) and not hexbox))
+        if impl[1] == 'value' and not want_value:
+            bad('refusal', f'raised ValueError({impl[2]}) for a valid plane')
+        elif impl[1] not in ('value', 'assert'):
+            bad('refusal', f'raised {impl[1]}: {impl[2]}')
+        return failed
+    if all(x == 0 for x in hkl3):
+        bad('refusal', f'accepted the all-zero plane and returned {impl[1]}')
+        return failed
+    uv3 = to_uv3(impl[1])
+    if uv3 is None:
+        bad('integer', f'returned non-integer vectors {impl[1]}')
+        return failed
+    if len(impl[1][0]) == 4 and any(abs(r[0] + r[1] + r[2]) > 1e-12 for r in impl[1]):
+        bad('integer', f'Miller-Bravais rows do not satisfy u+v+t=0: {impl[1]}')
+    U = [uv3[0:3], uv3[3:6], uv3[6:9]]
+    ci = 'abc'.index(cut)
+    L = _c2p_int(setting or 'p')
+    A = _adj_int(L)
+    W = [_vm(r, A) for r in U]              # det(L) x indices relative to the conventional cell
+    za, zb, zc = _dot(hkl3, W[(ci + 1) % 3]), _dot(hkl3, W[(ci + 2) % 3]), _dot(hkl3, W[ci])
+    if za != 0 or zb != 0:
+        bad('in-plane', f'returned {U}: zone law h u + k v + l w = {za}, {zb} (x det L) for the two in-plane vectors')
+    if zc == 0:
+        bad('out-of-plane', f'returned {U}: the cutboxvector row {U[ci]} lies in the plane')
+    V = [[F(x) for x in r] for r in vects]
+    dV = _det(V)
+    if _det(U) * dV <= 0:
+        bad('right-handed', f'returned {U} with determinant {_det(U)} (box determinant {float(dV)})')
+    if zc * dV < 0:
+        bad('out-of-plane', f'returned {U}: the cutboxvector row points against the plane normal')
+    # reported normal = positive multiple of det(Vc) (h a* + k b* + l c*) of the conventional cell Vc = L V
+    Vc = _matmul([[F(x) for x in r] for r in L], V)
+    g = [sum(hkl3[i] * c[j] for i, c in enumerate([_cross(Vc[1], Vc[2]), _cross(Vc[2], Vc[0]), _cross(Vc[0], Vc[1])]))
+         for j in range(3)]
+    pn = [F(x) for x in impl[2]]
+    cr = _cross(pn, g)
+    if exact:
+        okn = all(x == 0 for x in cr) and _dot(pn, g) > 0
+    else:
+        sc = math.sqrt(float(_dot(pn, pn)) * float(_dot(g, g)))
+        okn = all(abs(float(x)) <= 1e-9 * sc for x in cr) and _dot(pn, g) > 0
+    if not okn:
+        bad('normal', f'planenormal {impl[2]} is not along h a* + k b* + l c* = {[float(x) for x in g]} (x det)')
+    # minimality inside the index cube (exact regime, small cubes)
+    nn = n if n is not None else default_maxindex(hkl3, setting)
+    if exact and not failed and nn <= 5:
+        G = _matmul(V, [[V[j][i] for j in range(3)] for i in range(3)])
+        m2 = lambda v: sum(v[i] * G[i][j] * v[j] for i in range(3) for j in range(3))
+        rng_ = range(-nn, nn + 1)
+        a, b, c = U[(ci + 1) % 3], U[(ci + 2) % 3], U[ci]
+        ma, mb, mc, dc = m2(a), m2(b), m2(c), zc * (1 if dV > 0 else -1)
+        for x in rng_:
+            for y in rng_:
+                for z in rng_:
+                    v = [x, y, z]
+                    if x == 0 and y == 0 and z == 0:
+                        continue
+                    d = _dot(hkl3, _vm(v, A)) * (1 if dV > 0 else -1)
+                    if d == 0:
+                        mv = m2(v)
+                        if mv < ma:
+                            bad('shortest', f'returned a={a} (|a|^2={float(ma)}) but the in-plane vector {v} is shorter '
+                                f'({float(mv)})')
+                            return failed
+                        if mv < mb and any(_cross(a, v)):
+                            bad('shortest', f'returned b={b} (|b|^2={float(mb)}) but the in-plane vector {v}, not '
+                                f'parallel to a={a}, is shorter ({float(mv)})')
+                            return failed
+                    elif d > 0:
+                        mv = m2(v)
+                        if d * d * mc * (1 - F(1, 10 ** 9)) > dc * dc * mv:
+                            bad('closest', f'returned c={c} but {v} is closer to the plane normal '
+                                f'(cos^2 {float(d * d / mv)} vs {float(dc * dc / mc)}, common factor dropped)')
+                            return failed
+    return failed
+
+
+def _lattice_match(fr, fr_sites, tol=1e-6):
+    """index j of the site with fr - fr_sites[j] integer (within tol), else -1."""
+    import numpy as np
+    d = fr[None, :] - fr_sites
+    ok = (np.abs(d - np.rint(d)) < tol).all(axis=1)
+    idx = np.nonzero(ok)[0]
+    return int(idx[0]) if len(idx) else -1
+
+
+def _crystal_census(P, atype, T, ucell, what):
+    """every position of P (Cartesian, frame rotated by T w.r.t. ucell) is a site of the infinite crystal of
+    ucell with the same atom type; returns (message or None, counts per ucell atom)."""
+    import numpy as np
+    Vu = np.asarray(ucell.box.vects, dtype=float)
+    fu = (np.asarray(ucell.atoms.pos, dtype=float) - ucell.box.origin) @ np.linalg.inv(Vu)
+    tu = np.asarray(ucell.atoms.atype)
+    counts = [0] * len(fu)
+    f = (P @ T - ucell.box.origin) @ np.linalg.inv(Vu)       # row p_r -> p_u = T^T p_r  ==  p_r @ T
+    for i in range(len(P)):
+        j = _lattice_match(f[i], fu)
+        if j < 0:
+            return f'{what}: atom {i} at {P[i].tolist()} is not on a site of the crystal (fractional ' \
+                   f'{np.round(f[i], 6).tolist()} in the unit cell)', counts
+        if int(atype[i]) != int(tu[j]):
+            return f'{what}: atom {i} has type {int(atype[i])} on a site of type {int(tu[j])}', counts
+        counts[j] += 1
+    return None, counts
+
+
+def o_free_surface(ctx, spec, report=True):
+    """clauses of FreeSurface / StackingFault on one crystal, plane and cut vector."""
+    import numpy as np
+    from atomman.defect import StackingFault
+    nm, a, c, exact = spec['crystal'], spec['a'], spec['c'], spec['exact']
+    hkl, cut, tol, n = spec['hkl'], spec['cut'], spec['tol'], spec['maxindex']
+    ucell, st = [(u, s_) for k, u, s_ in crystal_list(a, c, exact) if k == nm][0]
+    rng = random.Random(spec['seed'])
+    failed = []
+    rep = dict(spec, op='o_fs')
+
+    def bad(clause, what):
+        failed.append(clause)
+        if report:
+            ctx.violate('fs:' + clause, f'{nm} (a={a}, c={c}) hkl={hkl} cutboxvector={cut!r} setting={st!r}: {what}',
+                        dict(rep, clause=clause))
+    try:
+        sf = StackingFault(list(hkl), ucell, cutboxvector=cut, maxindex=n, conventional_setting=st, tol=tol)
+    except AssertionError:
+        return failed
+    except ValueError as e:
+        if 'cutboxvector' not in str(e):
+            bad('refusal', f'raised ValueError({e})')
+        return failed
+    ci = 'abc'.index(cut)
+    if sf.cutindex != ci:
+        bad('cutindex', f'cutindex {sf.cutindex}')
+        return failed
+    rbox = sf.rcell.box
+    Vu = np.asarray(ucell.box.vects, dtype=float)
+    prim = _conv_to_prim(np.asarray(sf.uvws, dtype=float).tolist(), st)
+    U = np.rint(np.array(prim))
+    if np.abs(U - np.array(prim)).max() > 1e-9:
+        bad('integer', f'uvws {np.asarray(sf.uvws).tolist()} are not lattice vectors of the unit cell')
+        return failed
+    detU = int(round(np.linalg.det(U)))
+    if detU <= 0:
+        bad('right-handed', f'uvws {U.tolist()} have determinant {detU}')
+        return failed
+    # rotation between the frames from the two boxes alone: rvects = U Vu T^T
+    Tt = np.linalg.solve(U @ Vu, np.asarray(rbox.vects, dtype=float))
+    T = Tt.T
+    if np.abs(T @ T.T - np.identity(3)).max() > 1e-9 or abs(np.linalg.det(T) - 1) > 1e-9:
+        bad('rotation', f'the rotated cell {rbox.vects.tolist()} is not a proper rotation of uvws.vects')
+        return failed
+    W = float(rbox.vects[ci, ci])
+    inpl = [(ci + 1) % 3, (ci + 2) % 3]
+    if any(abs(rbox.vects[i, ci]) > 1e-9 * W for i in inpl):
+        bad('in-plane', f'in-plane cell vectors of the rotated cell have a component along the cut: {rbox.vects.tolist()}')
+    msg, counts = _crystal_census(np.asarray(sf.rcell.atoms.pos, dtype=float) - rbox.origin * 0, sf.rcell.atoms.atype, T,
+                                  ucell, 'rotated cell')
+    if msg is None and any(k != detU for k in counts):
+        msg = f'rotated cell holds {counts} copies of the unit-cell atoms, expected {detU} each'
+    if msg:
+        bad('same-crystal', msg)
+        return failed
+    nsh = len(sf.shifts)
+    if nsh == 0:
+        bad('shifts', 'no termination shift offered')
+        return failed
+    # ---- every offered shift (up to 6), random multipliers / minwidth / even / vacuum ------------------------
+    idxs = list(range(nsh)) if nsh <= 6 else sorted(rng.sample(range(nsh), 6))
+    system = None
+    for si in idxs:
+        sizemults = [rng.choice([1, 1, 2, -2, (-1, 1)]) for _ in range(3)]
+        sizemults[ci] = rng.choice([1, 2, 3, -1, -2])
+        minwidth = rng.choice([None, None, rng.uniform(0.5, 3.5) * W])
+        even = rng.random() < 0.4
+        vac = rng.choice([None, None, rng.uniform(0.5, 9.0), 4.0])
+        kw = dict(shiftindex=si, sizemults=list(sizemults), minwidth=minwidth, even=even, vacuumwidth=vac)
+        system = sf.surface(**kw)
+        tag = f'surface({kw})'
+        P = np.asarray(system.atoms.pos, dtype=float)
+        if [bool(x) for x in system.pbc] != [i != ci for i in range(3)]:
+            bad('pbc', f'{tag}: pbc {list(system.pbc)}')
+        mabs = []
+        for i in range(3):
+            m = sizemults[i]
+            mabs.append(m[1] - m[0] if isinstance(m, tuple) else abs(m))
+        mcut = int(round((float(system.box.vects[ci, ci]) - (vac or 0.0)) / W))
+        if mcut < mabs[ci] or (minwidth is not None and mcut * W < minwidth * (1 - 1e-12)) or (even and mcut % 2):
+            bad('multiplier', f'{tag}: {mcut} cells along the cut (requested {sizemults[ci]}, minwidth {minwidth}, '
+                f'even {even}, cell width {W})')
+        if mcut > max(mabs[ci], 1 if minwidth is None else math.ceil(minwidth / W - 1e-12)) + (1 if even else 0):
+            bad('multiplier', f'{tag}: {mcut} cells along the cut is more than asked for')
+        want = int(sf.rcell.natoms) * mabs[(ci + 1) % 3] * mabs[(ci + 2) % 3] * mcut
+        if system.natoms != want:
+            bad('same-crystal', f'{tag}: {system.natoms} atoms, expected {want}')
+            continue
+        shift = np.asarray(sf.shifts[si], dtype=float)
+        if any(abs(shift[i]) > 0 for i in inpl):
+            bad('shifts', f'shift {shift.tolist()} is not along the cut direction')
+        msg, counts = _crystal_census(P - shift, system.atoms.atype, T, ucell, tag)
+        if msg is None and len(set(counts)) != 1:
+            msg = f'{tag}: unit-cell atoms are represented {counts} times'
+        if msg is None:
+            # no two atoms on one site: relative coordinates of the supercell are pairwise distinct
+            rel = (P - system.box.origin) @ np.linalg.inv(system.box.vects)
+            key = {tuple(np.round(r, 6)) for r in rel}
+            if len(key) != len(P):
+                msg = f'{tag}: {len(P) - len(key)} atoms share a site with another atom'
+        if msg:
+            bad('same-crystal', msg)
+            continue
+        # the cut (cell faces across the non-periodic direction) is strictly between two atomic planes, midway
+        xs = P[:, ci]
+        lo = float(system.box.origin[ci])
+        hi = lo + float(system.box.vects[ci, ci])
+        mlo, mhi = float(xs.min()) - lo - (vac or 0.0) / 2, hi - float(xs.max()) - (vac or 0.0) / 2
+        if mlo <= 10 * tol or mhi <= 10 * tol:
+            bad('between-planes', f'{tag}: an atomic plane lies on the cut (distances {mlo}, {mhi} to the two faces)')
+        elif abs(mlo - mhi) > 1e-6 * W:
+            bad('between-planes', f'{tag}: the cut is not midway between the planes it separates '
+                f'({mlo} below the first plane, {mhi} above the last)'
+                + (' — vacuum is not split evenly' if vac else ''))
+        # (with vacuum and a tilted cut vector the in-plane relative coordinates change: not a clause of the property)
+        srel = (P - system.box.origin) @ np.linalg.inv(system.box.vects)
+        if vac is None and (srel.min() < -1e-9 or srel.max() > 1 + 1e-9):
+            bad('inside', f'{tag}: atoms outside the box (relative coordinates {srel.min()}..{srel.max()})')
+    if failed or system is None:
+        return failed
+    # ---- stacking fault on the last surface system ---------------------------------------------------------
+    P = np.asarray(system.atoms.pos, dtype=float).copy()
+    xs = np.unique(np.round(P[:, ci], 6))
+    gaps = [(xs[i], xs[i + 1]) for i in range(len(xs) - 1) if xs[i + 1] - xs[i] > 1e-3]
+    if not gaps:
+        return failed
+    a1c = np.asarray(rbox.vects[inpl[0]], dtype=float)      # Cartesian images of the two in-plane lattice vectors
+    a2c = np.asarray(rbox.vects[inpl[1]], dtype=float)
+    ovect = np.zeros(3)
+    ovect[ci] = 1.0
+    inv = np.linalg.inv(np.asarray(system.box.vects, dtype=float))
+    trials = [(rng.choice([0.5, 1 / 3, 0.25, 0.125, 0.7]), rng.choice([0.0, 0.5, 2 / 3, 0.3]), rng.choice([None, 0.0, 0.3])),
+              (1.0, 0.0, None), (0.0, 1.0, None), (-1.0, 1.0, None), (2.0, -1.0, 0.0)]
+    for a1, a2, oop in trials:
+        p, q = rng.choice(gaps)
+        fp = float((p + q) / 2)
+        fkw = dict(a1=a1, a2=a2, faultpos_cart=fp)
+        if oop is not None:
+            fkw['outofplane'] = oop
+        tag = f'fault({fkw}) after surface({kw})'
+        frep_full = dict(rep, surface=kw, fault=fkw)
+        try:
+            new = sf.fault(**fkw)
+        except ValueError as e:
+            bad('fault', f'{tag} raised ValueError({e})')
+            continue
+        Q = np.asarray(new.atoms.pos, dtype=float)
+        req = a1 * a1c + a2 * a2c + (oop or 0.0) * ovect
+        above = P[:, ci] > fp
+        if [bool(x) for x in sf.abovefault] != [bool(x) for x in above]:
+            bad('fault-mask', f'{tag}: abovefault is not (cut coordinate > {fp})')
+            continue
+        d = Q - P - np.outer(above, req)
+        drel = d @ inv
+        nint = np.rint(drel)
+        wrong = (np.abs(drel - nint) > 1e-7).any(axis=1) | (np.abs(d[:, ci]) > 1e-7)
+        if wrong.any():
+            i = int(np.argmax(wrong))
+            side = 'above' if above[i] else 'below'
+            bad('fault-' + side, f'{tag}: atom {i} ({side} the fault plane, at {P[i].tolist()}) moved by '
+                f'{(Q[i] - P[i]).tolist()}, requested {req.tolist() if above[i] else [0, 0, 0]} modulo the in-plane '
+                f'cell vectors')
+            continue
+        lattice = float(a1).is_integer() and float(a2).is_integer() and not oop
+        if lattice:
+            # a full in-plane lattice vector restores the perfect crystal: same set of sites, same types
+            def keyset(X, types):
+                r = (X - system.box.origin) @ inv
+                r[:, inpl] -= np.floor(r[:, inpl] + 1e-7)
+                return sorted((int(t), *np.round(row, 5)) for t, row in zip(types, r))
+            k0, k1 = keyset(P, system.atoms.atype), keyset(Q, new.atoms.atype)
+            if len(k0) != len(k1) or any(x[0] != y[0] or max(abs(u - v) for u, v in zip(x[1:], y[1:])) > 2e-5
+                                          for x, y in zip(k0, k1)):
+                bad('fault-restores', f'{tag}: shifting by the lattice vector {a1} a1 + {a2} a2 does not restore the crystal')
+    return failed
+
+
+def _fs_specs(ctx, rng, count):
+    specs = []
+    small = planes(2)
+    names = ['fcc', 'bcc', 'diamond', 'L12', 'B2', 'bct', 'hcp', 'fcc-prim', 'bcc-prim', 'ortho2']
+    for i in range(count):
+        exact = i % 3 == 0
+        a, c = crystal_params(rng, exact)
+        nm = names[(i + rng.randrange(3)) % len(names)]
+        hkl = rng.choice(small)
+        if rng.random() < 0.35:
+            hkl = rng.choice([(1, 0, 0), (0, 1, 0), (0, 0, 1), (0, 0, -1), (1, 1, 0), (1, 1, 1), (0, 1, 1), (1, -1, 0)])
+            cut = rng.choice(CUTS)
+        else:
+            cut = rng.choice(('c', 'c', 'a', 'b'))
+        if nm == 'hcp' and rng.random() < 0.5:
+            hkl = (hkl[0], hkl[1], -(hkl[0] + hkl[1]), hkl[2])
+        st = {'fcc-prim': 'f', 'bcc-prim': 'i'}.get(nm, 'p')
+        hkl3 = hkl if len(hkl) == 3 else (hkl[0], hkl[1], hkl[3])
+        specs.append({'crystal': nm, 'a': a, 'c': c, 'exact': exact, 'hkl': list(hkl), 'cut': cut,
+                      'tol': rng.choice([1e-7, 1e-8, 1e-6]), 'maxindex': _capped(hkl3, st, 3),
+                      'seed': rng.randrange(1 << 30)})
+    return specs
+
+
+def _impl_fsb_checked(arg):
+    job, exact = arg
+    return _impl_fsb(job)
+
+
+def search(ctx, broken):
+    rng = random.Random(ctx.seed * 7919 + 14)
+    try:
+        # (A) free_surface_basis: random planes x cells of every family x cuts x settings, both regimes
+        N = ctx.n(5, 9)
+        cap = ctx.n(4, 5)
+        count = ctx.n(260, 4000) * (3 if broken else 1)
+        ex = exact_cells(rng)
+        fl = [(nm, b.vects.tolist()) for nm, b in float_cells(rng)]
+        centred = []
+        for st in ('f', 'i', 'a', 'b', 'c', 't1', 't2'):
+            for nm, conv in ex:
+                ok = {'t1': ('hexagonal',), 't2': ('hexagonal',), 'f': ('cubic', 'orthorhombic'),
+                      'i': ('cubic', 'orthorhombic', 'tetragonal')}.get(st, ('orthorhombic', 'monoclinic', 'triclinic'))
+                if nm not in ok:
+                    continue
+                prim = primitive_of([[x * (3 if st in ('t1', 't2') else 2) for x in r] for r in conv], st)
+                if prim is not None and _det(prim) > 0:
+                    centred.append((st, nm, prim))
+        jobs = []
+        for i in range(count):
+            hkl = tuple(rng.randint(-N, N) for _ in range(3))
+            if rng.random() < 0.3:
+                hkl = tuple(x if rng.random() < 0.6 else 0 for x in hkl)
+            if hkl == (0, 0, 0) and rng.random() < 0.8:
+                hkl = (0, 0, rng.choice([-2, -1, 1, 3]))
+            cut = rng.choice(CUTS)
+            k = rng.random()
+            if k < 0.4:
+                nm, vects = rng.choice(ex)
+                st = rng.choice([None, 'p'])
+                jobs.append(((vects, hkl, cut, _capped(hkl, st, cap), st, None), True))
+            elif k < 0.65:
+                st, nm, prim = rng.choice(centred)
+                jobs.append(((prim, hkl, cut, _capped(hkl, st, cap), st, None), True))
+            elif k < 0.9:
+                nm, vects = rng.choice(fl)
+                jobs.append(((vects, hkl, cut, _capped(hkl, None, cap), None, None), False))
+            else:
+                hexE = [v for nm, v in ex if nm == 'hexagonal'][0]
+                hkil = (hkl[0], hkl[1], -(hkl[0] + hkl[1]), hkl[2])
+                jobs.append(((hexE, hkil, cut, _capped(hkl, None, cap), None, rng.choice([None, True, False])), True))
+        impls = _pmap(_impl_fsb, [j for j, _ in jobs])
+        nf = 0
+        for (job, exact), impl in zip(jobs, impls):
+            ctx.stats.case('oracle:fsb' + (':exact' if exact else ':float'),
+                           (tuple(map(tuple, job[0])), tuple(job[1]), job[2], job[3], job[4], job[5]),
+                           nontrivial=impl[0] == 'ok')
+            if o_fsb(ctx, job, exact, impl=impl):
+                nf += 1
+        ctx.extra['oracle_fsb'] = {'cases': len(jobs), 'failed': nf}
+    finally:
+        _close_pool()
+    # (B)+(C) FreeSurface / StackingFault systems
+    specs = _fs_specs(ctx, rng, ctx.n(36, 400) * (2 if broken else 1))
+    nf = nsys = 0
+    for spec in specs:
+        ctx.stats.case('oracle:FreeSurface:' + spec['crystal'],
+                       (spec['crystal'], spec['a'], spec['c'], tuple(spec['hkl']), spec['cut'], spec['seed']))
+        try:
+            f = o_free_surface(ctx, spec)
+        except Exception as e:  # noqa  (an unexpected exception class is a finding of its own)
+            ctx.violate('fs:exception', f'{spec}: {type(e).__name__}: {e}', dict(spec, op='o_fs'))
+            f = ['exception']
+        nf += bool(f)
+        nsys += 1
+    ctx.extra['oracle_free_surface'] = {'cases': nsys, 'failed': nf}
+
+
+def replay(ctx, payload):
+    r = payload.get('replay') or {}
+    op = r.get('op')
+    if op == 'o_fsb':
+        vects, hkl, cut, n, setting, rh = r['job']
+        f = o_fsb(ctx, (vects, tuple(hkl), cut, n, setting, rh), r.get('exact', False))
+        print('replay free_surface_basis oracle:', f or 'all clauses hold')
+    elif op == 'o_fs':
+        spec = {k: r[k] for k in ('crystal', 'a', 'c', 'exact', 'hkl', 'cut', 'tol', 'maxindex', 'seed')}
+        f = o_free_surface(ctx, spec)
+        print('replay FreeSurface/StackingFault oracle:', f or 'all clauses hold')
+    else:
+        if ctx.driver is not None:
+            correspond(ctx)
+            for d in ctx.disagreements[:10]:
+                print('replay: model/implementation disagree:', d.what)
+        search(ctx, True)
+        print('replay:', 'still fails' if (ctx.violations or ctx.disagreements) else 'passes now')
+
+
+MANIFEST = {
+    'text': 'Lean 4 theorems over an executable model of free_surface_basis / FreeSurface / StackingFault.fault, for ALL '
+            'integer planes, cells over every ordered field, maxindex and centring matrices: a successful run returns '
+            'non-zero integer vectors inside the index cube, the out-of-plane one an exact gcd reduction (primitive); the '
+            'two in-plane vectors satisfy the zone law h u + k v + l w = 0 in the indices of the conventional cell the '
+            'plane refers to, the third does not and lies on the side of the normal; (a x b).c > 0 for the Cartesian '
+            'images, hence det(uvws) > 0 for a right-handed cell under all three cutboxvector orderings; the reported '
+            'normal is the one miller.plane_crystal_to_cartesian computes and a positive multiple of '
+            'det.(h a*+k b*+l c*); a is a shortest in-plane candidate, c has the largest cosine to the normal, b is a '
+            'shortest second in-plane candidate with the smallest angle to a; ValueError exactly for the zero plane. '
+            'Every offered termination shift is minus the midpoint of two neighbouring layers modulo the cell width, so '
+            'every image of every layer stays half the interlayer gap away from the cut; surface() holds m_a m_b m_c '
+            'copies of each rotated-cell atom at original + shift + lattice vector, inside the supercell, pbc off '
+            'across the cut only, multiplier rules, vacuum split evenly; fault() leaves atoms at or below the plane '
+            'where they are and moves those above by the requested vector modulo the periodic cell vectors; a shift by '
+            'a periodic cell vector (or any translation symmetry of the upper half) restores the crystal. The model is '
+            'tied to the code by an exhaustive differential run over planes x families x cuts x settings and over '
+            'built surface / fault systems.',
+    'note': 'Trusted: Lean kernel + propext/Classical.choice/Quot.sound; numpy; isclose/arccos comparisons modelled as '
+            'exact comparisons (float ties handled relationally in the correspondence); floor and sqrt are parameters with '
+            'their defining inequalities; rotate/normalize of the unit cell are C04/C05 (here checked on the real objects '
+            'by a site census). See docs/C14.md.',
+    'technique': 'Lean 4 theorems over a hand-written model + differential correspondence + exact clause oracle',
+}
